@@ -288,6 +288,9 @@ def card_order(a, b):
                       z3.And(card(a) >= card(b), z3.Implies(card(a) == card(b), a == b)))
 
 
+_vc = z3.Const("v!card", Name)
+AX_CARD0 = z3.ForAll([_s], (card(_s) == 0) == z3.ForAll([_vc], _s[_vc] < 0), patterns=[card(_s)])
+LEMMAS["def.card(zero)"] = "card(S) = 0 iff S fixes no variable (len(dict) == 0 iff the dict is empty)"
 LEMMAS["def.card"] = "card(S) = number of fixed variables: S ⊑ T implies card(S) >= card(T), with equality only if S = T (finite dom)"
 
 
